@@ -323,7 +323,14 @@ static void build(vf::Plan &plan, const vf::Opts &o)
     const bool asan = false;
 #endif
     const bool big = o.thorough() && !asan;
-    const unsigned LX = big ? 6 : 5;
+    // VF_REDUCED: the ASan+UBSan build of the quick tier (reads past the text's heap block are invisible to the plain build):
+    // short sequence bounds, every stage whose texts reach the heap kept whole
+#ifdef VF_REDUCED
+    const bool reduced = true;
+#else
+    const bool reduced = false;
+#endif
+    const unsigned LX = reduced ? 3 : big ? 6 : 5;
     const unsigned KX = sizeof X;
     plan.stage(strf("hex:X^<=%u(17 symbols)", LX), vf::seq_count(KX, LX),
                [=](uint64_t i, Ctx &c) { check_input(c, HEX, seq_string(i, X, KX, LX)); },
@@ -366,7 +373,7 @@ static void build(vf::Plan &plan, const vf::Opts &o)
                    [mk](uint64_t i, Ctx &c) { check_input(c, HEX, mk(i)); }, [mk](uint64_t i) { return desc(mk(i)); });
     }
 
-    const unsigned LY = big ? 9 : 8;
+    const unsigned LY = reduced ? 5 : big ? 9 : 8;
     const unsigned KY = sizeof Y;
     plan.stage(strf("b64:Y^<=%u(7 symbols)", LY), vf::seq_count(KY, LY),
                [=](uint64_t i, Ctx &c) { check_input(c, B64, seq_string(i, Y, KY, LY)); },
@@ -427,7 +434,7 @@ static void build(vf::Plan &plan, const vf::Opts &o)
             g[PB[pp]] = (char)(v & 0xFF);
             return (pre ? std::string("QUJD") : std::string()) + g;
         };
-        uint64_t n = 65536ull * 6 * 2 * 2;
+        uint64_t n = reduced ? 65536ull : 65536ull * 6 * 2 * 2;
         plan.stage("b64:all-256^2-pairs-in-each-2-positions-of-the-last-group x {A,=} x {alone,after-group}", n,
                    [mk](uint64_t i, Ctx &c) { check_input(c, B64, mk(i)); }, [mk](uint64_t i) { return desc(mk(i)); });
     }
